@@ -126,8 +126,11 @@ Definition dispatch (op : string) (args : list tree) : tree :=
   | "norm_path", [L p] => L (norm_path p)
   | "unfold", [L q; L uniq; L extra] =>
       t_out (fun l => N (map t_sid l)) (unfold_search Ld q (String.eqb uniq "1") (String.eqb extra "1"))
-  | "unfold", [L q; L uniq; L extra; L _] =>
-      t_out (fun l => N (map t_sid l)) (unfold_search Ld q (String.eqb uniq "1") (String.eqb extra "1"))
+  | "unfold", [L q; L uniq; L extra; L spelling] =>
+      if String.eqb spelling "sidarg"
+      then t_out (fun l => N (map t_sid l))
+                 (do x <- Sid Ld q; unfold_search Ld (s_string x) (String.eqb uniq "1") (String.eqb extra "1"))   (* unfold_search(Sid(q)): str(sid) *)
+      else t_out (fun l => N (map t_sid l)) (unfold_search Ld q (String.eqb uniq "1") (String.eqb extra "1"))
   | "consume_partial", [items; L q; L n] =>
       match t_strs items with
       | Some it => if Nat.eqb (str_to_nat n) 0 then N [L "ok"; N []]      (* a generator that is never advanced runs nothing *)
